@@ -65,7 +65,8 @@ def main():
                     d = d or "cmd/achcli"
                 pkgdir = os.path.join(WT, d)
                 demo_dst = os.path.join(pkgdir, "zz_seed_demo_test.go")
-                run_demo = ["go", "test", "-vet=off", "-count=1", "-run", "Demo|Seed|C[0-9][0-9]", "./" + (d or ".")]
+                names = re.findall(r"^func (Test\w+)\(", open(os.path.join(seed, "demo_test.go")).read(), re.M)
+                run_demo = ["go", "test", "-vet=off", "-count=1", "-run", "^(" + "|".join(names) + ")$", "./" + (d or ".")]
             else:
                 demo_dst = None
                 shutil.rmtree(os.path.join(WT, "zzdemo"), ignore_errors=True)
